@@ -88,6 +88,13 @@ type z =
 let eqb b1 b2 =
   if b1 then b2 else if b2 then false else true
 
+(** val gmin : ('a1 -> 'a1 -> comparison) -> 'a1 -> 'a1 -> 'a1 **)
+
+let gmin cmp x y =
+  match cmp x y with
+  | Gt -> y
+  | _ -> x
+
 module Nat =
  struct
   (** val eqb : nat -> nat -> bool **)
@@ -125,17 +132,17 @@ module Coq_Pos =
     match x with
     | XI p ->
       (match y with
-       | XI q -> XO (add_carry p q)
-       | XO q -> XI (add p q)
+       | XI q0 -> XO (add_carry p q0)
+       | XO q0 -> XI (add p q0)
        | XH -> XO (succ p))
     | XO p ->
       (match y with
-       | XI q -> XI (add p q)
-       | XO q -> XO (add p q)
+       | XI q0 -> XI (add p q0)
+       | XO q0 -> XO (add p q0)
        | XH -> XI p)
     | XH -> (match y with
-             | XI q -> XO (succ q)
-             | XO q -> XI q
+             | XI q0 -> XO (succ q0)
+             | XO q0 -> XI q0
              | XH -> XO XH)
 
   (** val add_carry : positive -> positive -> positive **)
@@ -144,18 +151,18 @@ module Coq_Pos =
     match x with
     | XI p ->
       (match y with
-       | XI q -> XI (add_carry p q)
-       | XO q -> XO (add_carry p q)
+       | XI q0 -> XI (add_carry p q0)
+       | XO q0 -> XO (add_carry p q0)
        | XH -> XI (succ p))
     | XO p ->
       (match y with
-       | XI q -> XO (add_carry p q)
-       | XO q -> XI (add p q)
+       | XI q0 -> XO (add_carry p q0)
+       | XO q0 -> XI (add p q0)
        | XH -> XO (succ p))
     | XH ->
       (match y with
-       | XI q -> XI (succ q)
-       | XO q -> XO (succ q)
+       | XI q0 -> XI (succ q0)
+       | XO q0 -> XO (succ q0)
        | XH -> XI XH)
 
   (** val pred_double : positive -> positive **)
@@ -196,13 +203,13 @@ module Coq_Pos =
     match x with
     | XI p ->
       (match y with
-       | XI q -> double_mask (sub_mask p q)
-       | XO q -> succ_double_mask (sub_mask p q)
+       | XI q0 -> double_mask (sub_mask p q0)
+       | XO q0 -> succ_double_mask (sub_mask p q0)
        | XH -> IsPos (XO p))
     | XO p ->
       (match y with
-       | XI q -> succ_double_mask (sub_mask_carry p q)
-       | XO q -> double_mask (sub_mask p q)
+       | XI q0 -> succ_double_mask (sub_mask_carry p q0)
+       | XO q0 -> double_mask (sub_mask p q0)
        | XH -> IsPos (pred_double p))
     | XH -> (match y with
              | XH -> IsNul
@@ -214,15 +221,22 @@ module Coq_Pos =
     match x with
     | XI p ->
       (match y with
-       | XI q -> succ_double_mask (sub_mask_carry p q)
-       | XO q -> double_mask (sub_mask p q)
+       | XI q0 -> succ_double_mask (sub_mask_carry p q0)
+       | XO q0 -> double_mask (sub_mask p q0)
        | XH -> IsPos (pred_double p))
     | XO p ->
       (match y with
-       | XI q -> double_mask (sub_mask_carry p q)
-       | XO q -> succ_double_mask (sub_mask_carry p q)
+       | XI q0 -> double_mask (sub_mask_carry p q0)
+       | XO q0 -> succ_double_mask (sub_mask_carry p q0)
        | XH -> double_pred_mask p)
     | XH -> IsNeg
+
+  (** val sub : positive -> positive -> positive **)
+
+  let sub x y =
+    match sub_mask x y with
+    | IsPos z0 -> z0
+    | _ -> XH
 
   (** val mul : positive -> positive -> positive **)
 
@@ -239,19 +253,26 @@ module Coq_Pos =
   | XO n' -> iter f (iter f x n') n'
   | XH -> f x
 
+  (** val size_nat : positive -> nat **)
+
+  let rec size_nat = function
+  | XI p0 -> S (size_nat p0)
+  | XO p0 -> S (size_nat p0)
+  | XH -> S O
+
   (** val compare_cont : comparison -> positive -> positive -> comparison **)
 
   let rec compare_cont r x y =
     match x with
     | XI p ->
       (match y with
-       | XI q -> compare_cont r p q
-       | XO q -> compare_cont Gt p q
+       | XI q0 -> compare_cont r p q0
+       | XO q0 -> compare_cont Gt p q0
        | XH -> Gt)
     | XO p ->
       (match y with
-       | XI q -> compare_cont Lt p q
-       | XO q -> compare_cont r p q
+       | XI q0 -> compare_cont Lt p q0
+       | XO q0 -> compare_cont r p q0
        | XH -> Gt)
     | XH -> (match y with
              | XH -> r
@@ -264,17 +285,54 @@ module Coq_Pos =
 
   (** val eqb : positive -> positive -> bool **)
 
-  let rec eqb p q =
+  let rec eqb p q0 =
     match p with
-    | XI p0 -> (match q with
-                | XI q0 -> eqb p0 q0
+    | XI p0 -> (match q0 with
+                | XI q1 -> eqb p0 q1
                 | _ -> false)
-    | XO p0 -> (match q with
-                | XO q0 -> eqb p0 q0
+    | XO p0 -> (match q0 with
+                | XO q1 -> eqb p0 q1
                 | _ -> false)
-    | XH -> (match q with
+    | XH -> (match q0 with
              | XH -> true
              | _ -> false)
+
+  (** val ggcdn :
+      nat -> positive -> positive -> positive * (positive * positive) **)
+
+  let rec ggcdn n0 a b =
+    match n0 with
+    | O -> (XH, (a, b))
+    | S n1 ->
+      (match a with
+       | XI a' ->
+         (match b with
+          | XI b' ->
+            (match compare a' b' with
+             | Eq -> (a, (XH, XH))
+             | Lt ->
+               let (g, p) = ggcdn n1 (sub b' a') a in
+               let (ba, aa) = p in (g, (aa, (add aa (XO ba))))
+             | Gt ->
+               let (g, p) = ggcdn n1 (sub a' b') b in
+               let (ab, bb) = p in (g, ((add bb (XO ab)), bb)))
+          | XO b0 ->
+            let (g, p) = ggcdn n1 a b0 in
+            let (aa, bb) = p in (g, (aa, (XO bb)))
+          | XH -> (XH, (a, XH)))
+       | XO a0 ->
+         (match b with
+          | XI _ ->
+            let (g, p) = ggcdn n1 a0 b in
+            let (aa, bb) = p in (g, ((XO aa), bb))
+          | XO b0 -> let (g, p) = ggcdn n1 a0 b0 in ((XO g), p)
+          | XH -> (XH, (a, XH)))
+       | XH -> (XH, (XH, b)))
+
+  (** val ggcd : positive -> positive -> positive * (positive * positive) **)
+
+  let ggcd a b =
+    ggcdn (Coq__1.add (size_nat a) (size_nat b)) a b
 
   (** val iter_op : ('a1 -> 'a1 -> 'a1) -> positive -> 'a1 -> 'a1 **)
 
@@ -346,13 +404,13 @@ module N =
   let rec pos_div_eucl a b =
     match a with
     | XI a' ->
-      let (q, r) = pos_div_eucl a' b in
+      let (q0, r) = pos_div_eucl a' b in
       let r' = succ_double r in
-      if leb b r' then ((succ_double q), (sub r' b)) else ((double q), r')
+      if leb b r' then ((succ_double q0), (sub r' b)) else ((double q0), r')
     | XO a' ->
-      let (q, r) = pos_div_eucl a' b in
+      let (q0, r) = pos_div_eucl a' b in
       let r' = double r in
-      if leb b r' then ((succ_double q), (sub r' b)) else ((double q), r')
+      if leb b r' then ((succ_double q0), (sub r' b)) else ((double q0), r')
     | XH ->
       (match b with
        | N0 -> (N0, (Npos XH))
@@ -390,18 +448,18 @@ module Z =
     match x with
     | XI p ->
       (match y with
-       | XI q -> double (pos_sub p q)
-       | XO q -> succ_double (pos_sub p q)
+       | XI q0 -> double (pos_sub p q0)
+       | XO q0 -> succ_double (pos_sub p q0)
        | XH -> Zpos (XO p))
     | XO p ->
       (match y with
-       | XI q -> pred_double (pos_sub p q)
-       | XO q -> double (pos_sub p q)
+       | XI q0 -> pred_double (pos_sub p q0)
+       | XO q0 -> double (pos_sub p q0)
        | XH -> Zpos (Coq_Pos.pred_double p))
     | XH ->
       (match y with
-       | XI q -> Zneg (XO q)
-       | XO q -> Zneg (Coq_Pos.pred_double q)
+       | XI q0 -> Zneg (XO q0)
+       | XO q0 -> Zneg (Coq_Pos.pred_double q0)
        | XH -> Z0)
 
   (** val add : z -> z -> z **)
@@ -476,6 +534,13 @@ module Z =
        | Zneg y' -> compOpp (Coq_Pos.compare x' y')
        | _ -> Lt)
 
+  (** val sgn : z -> z **)
+
+  let sgn = function
+  | Z0 -> Z0
+  | Zpos _ -> Zpos XH
+  | Zneg _ -> Zneg XH
+
   (** val leb : z -> z -> bool **)
 
   let leb x y =
@@ -512,10 +577,10 @@ module Z =
              | Z0 -> true
              | _ -> false)
     | Zpos p -> (match y with
-                 | Zpos q -> Coq_Pos.eqb p q
+                 | Zpos q0 -> Coq_Pos.eqb p q0
                  | _ -> false)
     | Zneg p -> (match y with
-                 | Zneg q -> Coq_Pos.eqb p q
+                 | Zneg q0 -> Coq_Pos.eqb p q0
                  | _ -> false)
 
   (** val max : z -> z -> z **)
@@ -556,22 +621,28 @@ module Z =
   | N0 -> Z0
   | Npos p -> Zpos p
 
+  (** val to_pos : z -> positive **)
+
+  let to_pos = function
+  | Zpos p -> p
+  | _ -> XH
+
   (** val pos_div_eucl : positive -> z -> z * z **)
 
   let rec pos_div_eucl a b =
     match a with
     | XI a' ->
-      let (q, r) = pos_div_eucl a' b in
+      let (q0, r) = pos_div_eucl a' b in
       let r' = add (mul (Zpos (XO XH)) r) (Zpos XH) in
       if ltb r' b
-      then ((mul (Zpos (XO XH)) q), r')
-      else ((add (mul (Zpos (XO XH)) q) (Zpos XH)), (sub r' b))
+      then ((mul (Zpos (XO XH)) q0), r')
+      else ((add (mul (Zpos (XO XH)) q0) (Zpos XH)), (sub r' b))
     | XO a' ->
-      let (q, r) = pos_div_eucl a' b in
+      let (q0, r) = pos_div_eucl a' b in
       let r' = mul (Zpos (XO XH)) r in
       if ltb r' b
-      then ((mul (Zpos (XO XH)) q), r')
-      else ((add (mul (Zpos (XO XH)) q) (Zpos XH)), (sub r' b))
+      then ((mul (Zpos (XO XH)) q0), r')
+      else ((add (mul (Zpos (XO XH)) q0) (Zpos XH)), (sub r' b))
     | XH -> if leb (Zpos (XO XH)) b then (Z0, (Zpos XH)) else ((Zpos XH), Z0)
 
   (** val div_eucl : z -> z -> z * z **)
@@ -584,24 +655,24 @@ module Z =
        | Z0 -> (Z0, a)
        | Zpos _ -> pos_div_eucl a' b
        | Zneg b' ->
-         let (q, r) = pos_div_eucl a' (Zpos b') in
+         let (q0, r) = pos_div_eucl a' (Zpos b') in
          (match r with
-          | Z0 -> ((opp q), Z0)
-          | _ -> ((opp (add q (Zpos XH))), (add b r))))
+          | Z0 -> ((opp q0), Z0)
+          | _ -> ((opp (add q0 (Zpos XH))), (add b r))))
     | Zneg a' ->
       (match b with
        | Z0 -> (Z0, a)
        | Zpos _ ->
-         let (q, r) = pos_div_eucl a' b in
+         let (q0, r) = pos_div_eucl a' b in
          (match r with
-          | Z0 -> ((opp q), Z0)
-          | _ -> ((opp (add q (Zpos XH))), (sub b r)))
-       | Zneg b' -> let (q, r) = pos_div_eucl a' (Zpos b') in (q, (opp r)))
+          | Z0 -> ((opp q0), Z0)
+          | _ -> ((opp (add q0 (Zpos XH))), (sub b r)))
+       | Zneg b' -> let (q0, r) = pos_div_eucl a' (Zpos b') in (q0, (opp r)))
 
   (** val div : z -> z -> z **)
 
   let div a b =
-    let (q, _) = div_eucl a b in q
+    let (q0, _) = div_eucl a b in q0
 
   (** val modulo : z -> z -> z **)
 
@@ -617,25 +688,55 @@ module Z =
       (match b with
        | Z0 -> (Z0, a)
        | Zpos b0 ->
-         let (q, r) = N.pos_div_eucl a0 (Npos b0) in ((of_N q), (of_N r))
+         let (q0, r) = N.pos_div_eucl a0 (Npos b0) in ((of_N q0), (of_N r))
        | Zneg b0 ->
-         let (q, r) = N.pos_div_eucl a0 (Npos b0) in
-         ((opp (of_N q)), (of_N r)))
+         let (q0, r) = N.pos_div_eucl a0 (Npos b0) in
+         ((opp (of_N q0)), (of_N r)))
     | Zneg a0 ->
       (match b with
        | Z0 -> (Z0, a)
        | Zpos b0 ->
-         let (q, r) = N.pos_div_eucl a0 (Npos b0) in
-         ((opp (of_N q)), (opp (of_N r)))
+         let (q0, r) = N.pos_div_eucl a0 (Npos b0) in
+         ((opp (of_N q0)), (opp (of_N r)))
        | Zneg b0 ->
-         let (q, r) = N.pos_div_eucl a0 (Npos b0) in
-         ((of_N q), (opp (of_N r))))
+         let (q0, r) = N.pos_div_eucl a0 (Npos b0) in
+         ((of_N q0), (opp (of_N r))))
 
   (** val quot : z -> z -> z **)
 
   let quot a b =
     fst (quotrem a b)
+
+  (** val ggcd : z -> z -> z * (z * z) **)
+
+  let ggcd a b =
+    match a with
+    | Z0 -> ((abs b), (Z0, (sgn b)))
+    | Zpos a0 ->
+      (match b with
+       | Z0 -> ((abs a), ((sgn a), Z0))
+       | Zpos b0 ->
+         let (g, p) = Coq_Pos.ggcd a0 b0 in
+         let (aa, bb) = p in ((Zpos g), ((Zpos aa), (Zpos bb)))
+       | Zneg b0 ->
+         let (g, p) = Coq_Pos.ggcd a0 b0 in
+         let (aa, bb) = p in ((Zpos g), ((Zpos aa), (Zneg bb))))
+    | Zneg a0 ->
+      (match b with
+       | Z0 -> ((abs a), ((sgn a), Z0))
+       | Zpos b0 ->
+         let (g, p) = Coq_Pos.ggcd a0 b0 in
+         let (aa, bb) = p in ((Zpos g), ((Zneg aa), (Zpos bb)))
+       | Zneg b0 ->
+         let (g, p) = Coq_Pos.ggcd a0 b0 in
+         let (aa, bb) = p in ((Zpos g), ((Zneg aa), (Zneg bb))))
  end
+
+(** val tl : 'a1 list -> 'a1 list **)
+
+let tl = function
+| [] -> []
+| _ :: m -> m
 
 (** val nth : nat -> 'a1 list -> 'a1 -> 'a1 **)
 
@@ -702,10 +803,10 @@ let rec filter f = function
 let rec combine l l' =
   match l with
   | [] -> []
-  | x :: tl ->
+  | x :: tl0 ->
     (match l' with
      | [] -> []
-     | y :: tl' -> (x, y) :: (combine tl tl'))
+     | y :: tl' -> (x, y) :: (combine tl0 tl'))
 
 (** val list_prod : 'a1 list -> 'a2 list -> ('a1 * 'a2) list **)
 
@@ -737,6 +838,59 @@ let rec skipn n0 l =
 let rec repeat x = function
 | O -> []
 | S k -> x :: (repeat x k)
+
+type q = { qnum : z; qden : positive }
+
+(** val inject_Z : z -> q **)
+
+let inject_Z x =
+  { qnum = x; qden = XH }
+
+(** val qcompare : q -> q -> comparison **)
+
+let qcompare p q0 =
+  Z.compare (Z.mul p.qnum (Zpos q0.qden)) (Z.mul q0.qnum (Zpos p.qden))
+
+(** val qplus : q -> q -> q **)
+
+let qplus x y =
+  { qnum = (Z.add (Z.mul x.qnum (Zpos y.qden)) (Z.mul y.qnum (Zpos x.qden)));
+    qden = (Coq_Pos.mul x.qden y.qden) }
+
+(** val qmult : q -> q -> q **)
+
+let qmult x y =
+  { qnum = (Z.mul x.qnum y.qnum); qden = (Coq_Pos.mul x.qden y.qden) }
+
+(** val qopp : q -> q **)
+
+let qopp x =
+  { qnum = (Z.opp x.qnum); qden = x.qden }
+
+(** val qminus : q -> q -> q **)
+
+let qminus x y =
+  qplus x (qopp y)
+
+(** val qinv : q -> q **)
+
+let qinv x =
+  match x.qnum with
+  | Z0 -> { qnum = Z0; qden = XH }
+  | Zpos p -> { qnum = (Zpos x.qden); qden = p }
+  | Zneg p -> { qnum = (Zneg x.qden); qden = p }
+
+(** val qdiv : q -> q -> q **)
+
+let qdiv x y =
+  qmult x (qinv y)
+
+(** val qred : q -> q **)
+
+let qred q0 =
+  let { qnum = q1; qden = q2 } = q0 in
+  let (r1, r2) = snd (Z.ggcd q1 (Zpos q2)) in
+  { qnum = r1; qden = (Z.to_pos r2) }
 
 (** val nthZ : 'a1 -> 'a1 list -> z -> 'a1 **)
 
@@ -824,7 +978,7 @@ let rec ravel sh pos =
   | _ :: r ->
     (match pos with
      | [] -> Z0
-     | p :: q -> Z.add (Z.mul p (size r)) (ravel r q))
+     | p :: q0 -> Z.add (Z.mul p (size r)) (ravel r q0))
 
 (** val unravel : z list -> z -> z list **)
 
@@ -843,7 +997,7 @@ let rec in_shapeb sh pos =
   | d :: r ->
     (match pos with
      | [] -> false
-     | p :: q -> (&&) ((&&) (Z.leb Z0 p) (Z.ltb p d)) (in_shapeb r q))
+     | p :: q0 -> (&&) ((&&) (Z.leb Z0 p) (Z.ltb p d)) (in_shapeb r q0))
 
 (** val all_positions : z list -> z list list **)
 
@@ -859,21 +1013,21 @@ let aget a pos =
 
 (** val padd : z list -> z list -> z list **)
 
-let rec padd p q =
+let rec padd p q0 =
   match p with
   | [] -> []
   | a :: p' ->
-    (match q with
+    (match q0 with
      | [] -> []
      | b :: q' -> (Z.add a b) :: (padd p' q'))
 
 (** val psub : z list -> z list -> z list **)
 
-let rec psub p q =
+let rec psub p q0 =
   match p with
   | [] -> []
   | a :: p' ->
-    (match q with
+    (match q0 with
      | [] -> []
      | b :: q' -> (Z.sub a b) :: (psub p' q'))
 
@@ -954,10 +1108,10 @@ let rec border_pos mode sh pos =
   | d :: r ->
     (match pos with
      | [] -> Some []
-     | p :: q ->
+     | p :: q0 ->
        (match border_map mode p d with
         | Some c ->
-          (match border_pos mode r q with
+          (match border_pos mode r q0 with
            | Some t -> Some (c :: t)
            | None -> None)
         | None -> None))
@@ -1150,11 +1304,11 @@ let rec fixpos mode sh pos =
   | d :: r ->
     (match pos with
      | [] -> Some []
-     | p :: q ->
+     | p :: q0 ->
        let c = fix_offset mode p d in
        if Z.eqb c border_flag_value
        then None
-       else (match fixpos mode r q with
+       else (match fixpos mode r q0 with
              | Some t -> Some (c :: t)
              | None -> None))
 
@@ -1169,7 +1323,7 @@ let entries compress bc =
 
 let retrieve mode f p off =
   match fixpos mode f.shape (padd p off) with
-  | Some q -> Some (aget f q)
+  | Some q0 -> Some (aget f q0)
   | None -> None
 
 (** val esub : dt -> z -> z -> z **)
@@ -1209,8 +1363,8 @@ let erode_generic d f bc =
 
 let dilate_entry d f p v o e =
   match fixpos extendNearest f.shape (padd p (fst e)) with
-  | Some q ->
-    let i = ravel f.shape q in
+  | Some q0 ->
+    let i = ravel f.shape q0 in
     let nval = dadd d v (snd e) in
     if Z.gtb nval (nthZ Z0 o i) then updZ o i nval else o
   | None -> o
@@ -1370,8 +1524,8 @@ let convolve_generic mode f w =
 
 (** val sample : z -> arr -> z list -> z **)
 
-let sample mode f q =
-  match border_pos mode f.shape q with
+let sample mode f q0 =
+  match border_pos mode f.shape q0 with
   | Some r -> aget f r
   | None -> Z0
 
@@ -1549,7 +1703,7 @@ let samples_spec mode f bc p =
     if Z.eqb (aget bc k) Z0
     then []
     else (match border_pos mode f.shape (padd p (psub k (centre bc.shape))) with
-          | Some q -> (aget f q) :: []
+          | Some q0 -> (aget f q0) :: []
           | None -> if Z.eqb mode m_constant then Z0 :: [] else []))
     (all_positions bc.shape)
 
@@ -1569,8 +1723,8 @@ let ssd_spec mode f t p =
   sumZ
     (map (fun k ->
       match border_pos mode f.shape (padd p (psub k (centre t.shape))) with
-      | Some q ->
-        Z.mul (Z.sub (aget f q) (aget t k)) (Z.sub (aget f q) (aget t k))
+      | Some q0 ->
+        Z.mul (Z.sub (aget f q0) (aget t k)) (Z.sub (aget f q0) (aget t k))
       | None -> Z0) (all_positions t.shape))
 
 (** val assoc : z -> (z * z) list -> z option **)
@@ -1744,7 +1898,7 @@ let borders_spec mode f bc p =
   existsb (fun k ->
     (&&) (negb (Z.eqb (aget bc k) Z0))
       (match border_pos mode f.shape (padd p (psub k (centre bc.shape))) with
-       | Some q -> negb (Z.eqb (aget f q) (aget f p))
+       | Some q0 -> negb (Z.eqb (aget f q0) (aget f p))
        | None -> false)) (all_positions bc.shape)
 
 (** val upd_ext : z list -> z list -> z list **)
@@ -1758,8 +1912,8 @@ let rec upd_ext ext0 pos =
      | hi :: r ->
        (match pos with
         | [] -> ext0
-        | p :: q ->
-          (Z.min lo p) :: ((Z.max hi (Z.add p (Zpos XH))) :: (upd_ext r q))))
+        | p :: q0 ->
+          (Z.min lo p) :: ((Z.max hi (Z.add p (Zpos XH))) :: (upd_ext r q0))))
 
 (** val ext_init : z list -> z list **)
 
@@ -1891,10 +2045,10 @@ let label_pairs f bc =
     then []
     else flat_map (fun e ->
            match fixpos extendConstant f.shape (padd p (fst e)) with
-           | Some q ->
-             if Z.eqb (aget f q) Z0
+           | Some q0 ->
+             if Z.eqb (aget f q0) Z0
              then []
-             else ((ravel f.shape p), (ravel f.shape q)) :: []
+             else ((ravel f.shape p), (ravel f.shape q0)) :: []
            | None -> []) (entries true bc)) (all_positions f.shape)
 
 (** val init_classes : arr -> z list **)
@@ -2010,9 +2164,9 @@ let inimg_nbrs f offs p =
 
 let plateau_pairs f offs =
   flat_map (fun p ->
-    flat_map (fun q ->
-      if Z.eqb (aget f q) (aget f p)
-      then ((ravel f.shape p), (ravel f.shape q)) :: []
+    flat_map (fun q0 ->
+      if Z.eqb (aget f q0) (aget f p)
+      then ((ravel f.shape p), (ravel f.shape q0)) :: []
       else []) (inimg_nbrs f offs p)) (all_positions f.shape)
 
 (** val plateau_classes : arr -> z list list -> z list **)
@@ -2026,16 +2180,16 @@ let plateau_classes f offs =
 let regmm_spec is_min f bc =
   let offs = nbr_offsets bc in
   let cls = plateau_classes f offs in
-  let ok = fun q ->
-    forallb (fun r -> negb (better is_min (aget f r) (aget f q)))
-      (inimg_nbrs f offs q)
+  let ok = fun q0 ->
+    forallb (fun r -> negb (better is_min (aget f r) (aget f q0)))
+      (inimg_nbrs f offs q0)
   in
   map (fun p ->
-    if forallb (fun q ->
+    if forallb (fun q0 ->
          (||)
            (negb
-             (Z.eqb (nthZ Z0 cls (ravel f.shape q))
-               (nthZ Z0 cls (ravel f.shape p)))) (ok q))
+             (Z.eqb (nthZ Z0 cls (ravel f.shape q0))
+               (nthZ Z0 cls (ravel f.shape p)))) (ok q0))
          (all_positions f.shape)
     then Zpos XH
     else Z0) (all_positions f.shape)
@@ -2092,9 +2246,9 @@ let close_holes ref bc =
 let bg_pairs ref offs =
   flat_map (fun p ->
     if Z.eqb (aget ref p) Z0
-    then flat_map (fun q ->
-           if Z.eqb (aget ref q) Z0
-           then ((ravel ref.shape p), (ravel ref.shape q)) :: []
+    then flat_map (fun q0 ->
+           if Z.eqb (aget ref q0) Z0
+           then ((ravel ref.shape p), (ravel ref.shape q0)) :: []
            else []) (inimg_nbrs ref offs p)
     else []) (all_positions ref.shape)
 
@@ -2401,35 +2555,35 @@ let ext_lt_frac z0 a b =
 
 (** val ext_lt_int : ext -> z -> bool **)
 
-let ext_lt_int z0 q =
+let ext_lt_int z0 q0 =
   match z0 with
   | NegInf -> true
-  | Fin (c, d) -> Z.ltb c (Z.mul q d)
+  | Fin (c, d) -> Z.ltb c (Z.mul q0 d)
 
 (** val hull_pop : z list -> z -> (z * ext) list -> (z * ext) list **)
 
-let rec hull_pop f q hull = match hull with
-| [] -> (q, NegInf) :: []
+let rec hull_pop f q0 hull = match hull with
+| [] -> (q0, NegInf) :: []
 | p :: rest ->
   let (vk, zk) = p in
   let num =
-    Z.sub (Z.add (nthZ Z0 f q) (Z.mul q q))
+    Z.sub (Z.add (nthZ Z0 f q0) (Z.mul q0 q0))
       (Z.add (nthZ Z0 f vk) (Z.mul vk vk))
   in
-  let den = Z.mul (Zpos (XO XH)) (Z.sub q vk) in
+  let den = Z.mul (Zpos (XO XH)) (Z.sub q0 vk) in
   if ext_lt_frac zk num den
-  then (q, (Fin (num, den))) :: hull
-  else hull_pop f q rest
+  then (q0, (Fin (num, den))) :: hull
+  else hull_pop f q0 rest
 
 (** val build_hull : z list -> (z * ext) list **)
 
 let build_hull f =
-  fold_left (fun h q -> hull_pop f q h)
+  fold_left (fun h q0 -> hull_pop f q0 h)
     (zseq (Zpos XH) (sub (length f) (S O))) ((Z0, NegInf) :: [])
 
 (** val sweep_adv : nat -> z -> (z * ext) list -> (z * ext) list **)
 
-let rec sweep_adv fuel q h =
+let rec sweep_adv fuel q0 h =
   match fuel with
   | O -> h
   | S n0 ->
@@ -2439,7 +2593,7 @@ let rec sweep_adv fuel q h =
        (match t with
         | [] -> h
         | p :: _ ->
-          let (_, z1) = p in if ext_lt_int z1 q then sweep_adv n0 q t else h))
+          let (_, z1) = p in if ext_lt_int z1 q0 then sweep_adv n0 q0 t else h))
 
 (** val dt1d_with_origin : z list -> (z * z) list **)
 
@@ -2448,14 +2602,14 @@ let dt1d_with_origin f = match f with
 | _ :: _ ->
   let hull = rev (build_hull f) in
   snd
-    (fold_left (fun st q ->
-      let h = sweep_adv (length f) q (fst st) in
+    (fold_left (fun st q0 ->
+      let h = sweep_adv (length f) q0 (fst st) in
       let vk = match h with
                | [] -> Z0
                | p :: _ -> let (v, _) = p in v in
       (h,
       (app (snd st)
-        (((Z.add (Z.mul (Z.sub q vk) (Z.sub q vk)) (nthZ Z0 f vk)),
+        (((Z.add (Z.mul (Z.sub q0 vk) (Z.sub q0 vk)) (nthZ Z0 f vk)),
         vk) :: [])))) (zseq Z0 (length f)) (hull, []))
 
 (** val dt1d : z list -> z list **)
@@ -2472,9 +2626,9 @@ let lmin = function
 (** val minplus1d : z list -> z list **)
 
 let minplus1d f =
-  map (fun q ->
+  map (fun q0 ->
     lmin
-      (map (fun p -> Z.add (Z.mul (Z.sub q p) (Z.sub q p)) (nthZ Z0 f p))
+      (map (fun p -> Z.add (Z.mul (Z.sub q0 p) (Z.sub q0 p)) (nthZ Z0 f p))
         (zseq Z0 (length f)))) (zseq Z0 (length f))
 
 (** val line0 : z -> z -> z list -> z -> z list **)
@@ -2521,16 +2675,16 @@ let distance a =
 
 (** val sqdist : z list -> z list -> z **)
 
-let sqdist p q =
+let sqdist p q0 =
   sumZ
     (map (fun ab ->
       Z.mul (Z.sub (fst ab) (snd ab)) (Z.sub (fst ab) (snd ab)))
-      (combine p q))
+      (combine p q0))
 
 (** val distance_spec : arr -> z list **)
 
 let distance_spec a =
-  let bg = filter (fun q -> Z.eqb (aget a q) Z0) (all_positions a.shape) in
+  let bg = filter (fun q0 -> Z.eqb (aget a q0) Z0) (all_positions a.shape) in
   map (fun p ->
     match bg with
     | [] -> dist_inf a.shape
@@ -2578,3 +2732,212 @@ let gvoronoi lab =
   in
   let o = dt_ndo lab.shape (combine f (zseq Z0 (length f))) in
   map (fun vo -> nthZ Z0 lab.data (snd vo)) o
+
+(** val qabs : q -> q **)
+
+let qabs x =
+  let { qnum = n0; qden = d } = x in { qnum = (Z.abs n0); qden = d }
+
+(** val qmin : q -> q -> q **)
+
+let qmin =
+  gmin qcompare
+
+(** val qltb : q -> q -> bool **)
+
+let qltb a b =
+  Z.ltb (Z.mul a.qnum (Zpos b.qden)) (Z.mul b.qnum (Zpos a.qden))
+
+(** val zq : z -> q **)
+
+let zq =
+  inject_Z
+
+(** val prefix_sums : z -> z list -> z list **)
+
+let rec prefix_sums acc = function
+| [] -> []
+| x :: t -> (Z.add acc x) :: (prefix_sums (Z.add acc x) t)
+
+type ostate = { o_muB : q; o_muO : q; o_best : q; o_bestT : z; o_stop : bool }
+
+(** val otsu_step : z list -> z list -> z list -> ostate -> z -> ostate **)
+
+let otsu_step hist nB nO s t =
+  if s.o_stop
+  then s
+  else if Z.eqb (nthZ Z0 nB t) Z0
+       then s
+       else if Z.eqb (nthZ Z0 nO t) Z0
+            then { o_muB = s.o_muB; o_muO = s.o_muO; o_best = s.o_best;
+                   o_bestT = s.o_bestT; o_stop = true }
+            else let hT = nthZ Z0 hist t in
+                 let nBT = nthZ Z0 nB t in
+                 let nBp = nthZ Z0 nB (Z.sub t (Zpos XH)) in
+                 let nOT = nthZ Z0 nO t in
+                 let nOp = nthZ Z0 nO (Z.sub t (Zpos XH)) in
+                 let thT = Z.mul t hT in
+                 let muB =
+                   qred
+                     (qdiv (qplus (qmult s.o_muB (zq nBp)) (zq thT)) (zq nBT))
+                 in
+                 let muO =
+                   qred
+                     (qdiv (qminus (qmult s.o_muO (zq nOp)) (zq thT))
+                       (zq nOT))
+                 in
+                 let sigma =
+                   qred
+                     (qmult
+                       (qmult (qmult (zq nBT) (zq nOT)) (qminus muB muO))
+                       (qminus muB muO))
+                 in
+                 if qltb s.o_best sigma
+                 then { o_muB = muB; o_muO = muO; o_best = sigma; o_bestT =
+                        t; o_stop = false }
+                 else { o_muB = muB; o_muO = muO; o_best = s.o_best;
+                        o_bestT = s.o_bestT; o_stop = false }
+
+(** val weighted : z list -> z **)
+
+let weighted l =
+  sumZ
+    (map (fun iv -> Z.mul (fst iv) (snd iv)) (combine (zseq Z0 (length l)) l))
+
+(** val otsu : z list -> z **)
+
+let otsu hist =
+  let n0 = zlen hist in
+  if Z.leb n0 (Zpos XH)
+  then Z0
+  else let hsum = sumZ (tl hist) in
+       if Z.eqb hsum Z0
+       then Z0
+       else let nB = prefix_sums Z0 hist in
+            let tot = nthZ Z0 nB (Z.sub n0 (Zpos XH)) in
+            let nO = map (fun b -> Z.sub tot b) nB in
+            let muO = qdiv (zq (weighted hist)) (zq hsum) in
+            let nB0 = nthZ Z0 nB Z0 in
+            let nO0 = nthZ Z0 nO Z0 in
+            let best =
+              qmult
+                (qmult (qmult (zq nB0) (zq nO0))
+                  (qminus { qnum = Z0; qden = XH } muO))
+                (qminus { qnum = Z0; qden = XH } muO)
+            in
+            (fold_left (otsu_step hist nB nO)
+              (zseq (Zpos XH) (sub (length hist) (S O))) { o_muB = { qnum =
+              Z0; qden = XH }; o_muO = muO; o_best = best; o_bestT = Z0;
+              o_stop = false }).o_bestT
+
+(** val cnt_le : z list -> z -> z **)
+
+let cnt_le hist t =
+  sumZ (firstn (Z.to_nat (Z.add t (Zpos XH))) hist)
+
+(** val sum_le : z list -> z -> z **)
+
+let sum_le hist t =
+  weighted (firstn (Z.to_nat (Z.add t (Zpos XH))) hist)
+
+(** val sigma_spec : z list -> z -> q **)
+
+let sigma_spec hist t =
+  let nB = cnt_le hist t in
+  let nO = Z.sub (sumZ hist) nB in
+  let sB = sum_le hist t in
+  let sO = Z.sub (weighted hist) sB in
+  if (||) (Z.eqb nB Z0) (Z.eqb nO Z0)
+  then { qnum = Z0; qden = XH }
+  else qmult
+         (qmult (qmult (zq nB) (zq nO))
+           (qminus (qdiv (zq sB) (zq nB)) (qdiv (zq sO) (zq nO))))
+         (qminus (qdiv (zq sB) (zq nB)) (qdiv (zq sO) (zq nO)))
+
+(** val otsu_spec : z list -> z **)
+
+let otsu_spec hist =
+  fst
+    (fold_left (fun bt t ->
+      if qltb (snd bt) (sigma_spec hist t)
+      then (t, (sigma_spec hist t))
+      else bt) (zseq (Zpos XH) (sub (length hist) (S O))) (Z0,
+      (sigma_spec hist Z0)))
+
+(** val cnt_gt : z list -> z -> z **)
+
+let cnt_gt hist t =
+  Z.sub (sumZ hist) (cnt_le hist t)
+
+(** val sum_gt : z list -> z -> z **)
+
+let sum_gt hist t =
+  Z.sub (weighted hist) (sum_le hist t)
+
+(** val rc_mid : z list -> z -> q **)
+
+let rc_mid hist t =
+  qdiv
+    (qplus (qdiv (zq (sum_le hist t)) (zq (cnt_le hist t)))
+      (qdiv (zq (sum_gt hist t)) (zq (cnt_gt hist t)))) (zq (Zpos (XO XH)))
+
+(** val last_nonzero : z list -> z -> z -> z **)
+
+let rec last_nonzero l i best =
+  match l with
+  | [] -> best
+  | x :: t ->
+    last_nonzero t (Z.add i (Zpos XH)) (if Z.eqb x Z0 then best else i)
+
+(** val rc_loop : nat -> z list -> z -> q -> z -> q **)
+
+let rec rc_loop fuel hist maxt res t =
+  match fuel with
+  | O -> res
+  | S k ->
+    if qltb (zq t) (qmin (zq maxt) res)
+    then let res' =
+           if (||) (Z.eqb (cnt_le hist t) Z0) (Z.eqb (cnt_gt hist t) Z0)
+           then res
+           else rc_mid hist t
+         in
+         rc_loop k hist maxt res' (Z.add t (Zpos XH))
+    else res
+
+(** val rc : z list -> q **)
+
+let rc hist =
+  let maxt = last_nonzero hist Z0 Z0 in
+  rc_loop (length hist) hist maxt (zq maxt) Z0
+
+(** val gbernsen_px : q -> q -> q -> q -> q -> bool **)
+
+let gbernsen_px f fmax fmin contrast_threshold gthresh =
+  let fptp = qminus fmax fmin in
+  let fmean =
+    qplus (qdiv fmax (inject_Z (Zpos (XO XH))))
+      (qdiv fmin (inject_Z (Zpos (XO XH))))
+  in
+  if qltb fptp contrast_threshold then qltb fmean gthresh else qltb f fmean
+
+(** val soft_threshold_px : q -> q -> q **)
+
+let soft_threshold_px f tval =
+  let f0 =
+    qmult f
+      (if qltb tval (qabs f)
+       then { qnum = (Zpos XH); qden = XH }
+       else { qnum = Z0; qden = XH })
+  in
+  let f1 =
+    qminus f0
+      (qmult tval
+        (if qltb tval f0
+         then { qnum = (Zpos XH); qden = XH }
+         else { qnum = Z0; qden = XH }))
+  in
+  qplus f1
+    (qmult tval
+      (if qltb f1 (qopp tval)
+       then { qnum = (Zpos XH); qden = XH }
+       else { qnum = Z0; qden = XH }))
